@@ -98,6 +98,7 @@ class SpecFn:
     ptypes: Optional[list] = None  # for recursive ones: "int" | "arr1" | "arr2" per parameter
     ast: Optional[ast.AST] = None
     pyimpl: Optional[Callable] = None   # concrete implementation of an uninterpreted spec function
+    qdef: bool = False                  # also offer the definition as a quantified axiom (needed under binders)
 
     def __post_init__(self):
         self.ast = ast.parse(self.body.strip(), mode="eval").body if self.body is not None else None
@@ -106,14 +107,14 @@ class SpecFn:
 SPECS: dict = {}
 
 
-def spec(sig: str, body, ret: str = "int", ptypes=None, pyimpl=None):
+def spec(sig: str, body, ret: str = "int", ptypes=None, pyimpl=None, qdef=False):
     """Declare a spec function.  `sig` is e.g. "box(p, k, W, H)".
     Non-recursive spec functions are inlined; recursive ones (that mention
     their own name) become uninterpreted functions unfolded on demand."""
     name, _, rest = sig.partition("(")
     name = name.strip()
     params = [p.strip() for p in rest.rstrip(") ").split(",") if p.strip()]
-    sf = SpecFn(name, params, body, ret, False, ptypes, None, pyimpl)
+    sf = SpecFn(name, params, body, ret, False, ptypes, None, pyimpl, qdef)
     if body is None:      # uninterpreted: only (assumed or proved) lemmas speak about it
         sf.recursive = True
         SPECS[name] = sf
@@ -122,6 +123,8 @@ def spec(sig: str, body, ret: str = "int", ptypes=None, pyimpl=None):
                        for n in ast.walk(sf.ast))
     if sf.recursive and ptypes is None:
         raise ValueError(f"recursive spec {name} needs ptypes")
+    if ptypes is not None:      # explicitly typed => kept as a function symbol, definition unfolded on ground terms only
+        sf.recursive = True
     SPECS[name] = sf
     return sf
 
